@@ -1292,9 +1292,9 @@ fn filter_text_strikeout(s: &str) -> Option<String> {
     let mut result = String::new();
     for c in s.chars() {
         result.push(c);
-        if UnicodeWidthChar::width(c).unwrap_or(0) > 0 {
-            // This is a character with width (not a combining or other character)
-            // so add a strikethrough combiner.
+        if !c.is_whitespace() && UnicodeWidthChar::width(c).unwrap_or(0) > 0 {
+            // This is a visible character with width (not white space, a
+            // combining or other character) so add a strikethrough combiner.
             result.push('\u{336}');
         }
     }
